@@ -124,6 +124,18 @@ func c08Trans(c *Ctx, pre *Node, st Step, res *Result, post *State) ([]Violation
 	if err != nil {
 		return nil, false
 	}
+	// a snapshot that holds both "x" and "x/y" (committed from a staging area in which a file and the
+	// directory it replaced were both still staged) cannot exist in a working tree; the statements do not say
+	// what a reset to it means, so it is not judged and not explored further (see §7.2, indexConflict)
+	for p := range snap {
+		for i := 0; i < len(p); i++ {
+			if p[i] == '/' {
+				if _, both := snap[p[:i]]; both {
+					return nil, false
+				}
+			}
+		}
+	}
 	preI := pa.IndexMap()
 	keepsUntracked := func() {
 		for p, d := range pa.W {
